@@ -97,6 +97,7 @@ struct World {
   std::unordered_map<int, uint64_t> bound_val;
   std::unordered_map<int, long> bound_err;
   int fault_node = -1, fault_call = -1;      // modelled fault: the callable of this node throws on this call
+  int stop_call_node = -1, stop_call_idx = -1;   // the callable of this node requests stop on the root source on this call (before doing its work)
   bool tracked_faults = true;                // value copies/moves are throw points (off when that class is a known finding)
   bool values_in_op_state = true;            // leaves deliver every other value from an object inside their operation state
   bool abandoned = false;                    // case ends with a never-completing leaf (behind unstoppable): teardown of running ops is the harness's doing
